@@ -1110,6 +1110,7 @@ func (ex *Explorer) Run() {
 							t.hist[a.key()] = t.live[a.key()]
 						}
 					}
+					ex.markLoopTest(t, b, 0)
 					ex.enter(t, b, b.Succs[0])
 					succs = append(succs, t)
 				}
@@ -1123,6 +1124,7 @@ func (ex *Explorer) Run() {
 							f.hist[a.key()] = f.live[a.key()]
 						}
 					}
+					ex.markLoopTest(f, b, 1)
 					ex.enter(f, b, b.Succs[1])
 					succs = append(succs, f)
 				}
@@ -1140,7 +1142,13 @@ func (ex *Explorer) Run() {
 					var res []*CE
 					var ats []*Atom
 					for _, r := range x.Results {
-						res = append(res, ex.Canon(cur, r))
+						ce := ex.Canon(cur, r)
+						// a result that is itself what a nested inlined helper returned keeps that
+						// helper's underlying value (for nil-ness and shape questions in the caller)
+						if inner := resCE(cur, ex.Resolve(cur, r)); inner != nil {
+							ce.V, ce.V0 = inner.V, inner.V0
+						}
+						res = append(res, ce)
 						if isBoolT(r.Type()) {
 							ats = append(ats, ex.AtomOf(cur, r))
 						} else {
@@ -1205,6 +1213,33 @@ func (ex *Explorer) Run() {
 		}
 		work = append(work, succs...)
 	}
+}
+
+// markLoopTest records, as a label, the outcome of a loop's own continuation
+// test (the If that ends a loop header): the label is present while the last
+// evaluation let the loop continue and is dropped when the test fails. A path
+// that leaves the loop from inside an iteration (break, return) keeps it.
+func (ex *Explorer) markLoopTest(st *State, hdr *ssa.BasicBlock, succ int) {
+	body := InfoOf(hdr.Parent()).LoopOf[hdr.Index]
+	if body == nil {
+		return
+	}
+	l := loopLabel(hdr)
+	if body[hdr.Succs[succ].Index] {
+		st.seen[l] = true
+	} else {
+		delete(st.seen, l)
+	}
+}
+
+func loopLabel(hdr *ssa.BasicBlock) string {
+	return "lp:" + hdr.Parent().String() + "#" + strconv.Itoa(hdr.Index)
+}
+
+// LeftLoopEarly: the path's last evaluation of the loop's continuation test
+// succeeded, i.e. the loop was left from inside an iteration (or is still running).
+func LeftLoopEarly(st *State, hdr *ssa.BasicBlock) bool {
+	return hdr != nil && st.seen[loopLabel(hdr)]
 }
 
 // canInline: bodies only, no recursion, bounded depth and size.
